@@ -98,10 +98,11 @@ def body(ck, tier, runner):
     sd = SemDiff(ck, runner, "opt_on_off")
     ndb = 60 if tier == "quick" else 2500
     for d in range(ndb):
-        db = qgen.gen_db(rng, ntables=3, max_rows=rng.pick([6, 20, 40]), big=(d % 20 == 19))
+        big = d % 20 == 19
+        db = qgen.gen_db(rng, ntables=3, max_rows=rng.pick([6, 20, 40]), big=big)
         g = qgen.Gen(rng, db, FEATS)
         queries, keys = [], []
-        base, bkeys = gen_queries(rng, g, 6, [1, 2, 3, 3], sort_pct=0)
+        base, bkeys = gen_queries(rng, g, 6, [1, 2, 3, 3] if not big else [1, 1, 2], sort_pct=0)
         r = qgen.Renderer(g.schema)
         for q in base:
             ty_n = r.width(q)
@@ -110,9 +111,9 @@ def body(ck, tier, runner):
             keys.append(None)
         # explicitly wrapped variants (typed): generate fresh with types
         for _ in range(4):
-            q, ty = g.query(rng.pick([1, 2, 3]))
+            q, ty = g.query(rng.pick([1, 2, 3]) if not big else 1)
             q, ty = wrap(rng, g, q, ty)
-            if qgen.has_or_absorption(q):
+            if qgen.excluded(q):
                 continue
             if rng.chance(1, 3):
                 q, ks = qgen.top_sort(rng, q, ty)
@@ -120,9 +121,9 @@ def body(ck, tier, runner):
             else:
                 keys.append(None)
             queries.append(q)
-        for _ in range(2):
+        for _ in range(2 if not big else 0):
             for q, ty in targeted(rng, g):
-                if not qgen.has_or_absorption(q):
+                if not qgen.excluded(q):
                     queries.append(q)
                     keys.append(None)
         sd.check(db, queries, CONFIGS, inserts=rng.pick([1, 2]), sort_keys=keys)
